@@ -24,7 +24,7 @@ ANCHORS = ["coxeter.shapes.convex_polyhedron:ConvexPolyhedron._combine_simplices
 REQUIRED_MONITORS = ["convex:faces-are-hull-facets", "convex:face-ccw-from-outside", "convex:equations", "convex:neighbors",
                      "convex:edges", "convex:euler", "convex:simplices", "convex:dihedral", "sort_faces:outward-ccw",
                      "merge_faces:hull-facets", "order-independence"]
-REQUIRED_CLASSES = ["convex:lattice", "convex:tabulated", "scramble:convex", "scramble:voxel", "merge:convex"]
+REQUIRED_CLASSES = ["convex:lattice", "convex:tabulated", "convex:exact", "scramble:convex", "scramble:voxel", "merge:convex"]
 
 
 def ncases(tier):
@@ -39,10 +39,13 @@ def cyc_eq(a, b):
     return a == b[k:] + b[:k]
 
 
+_EXACT = {}      # vertex bytes -> Hull from integer arithmetic, for the exactly representable extreme solids
+
+
 def check_convex(rec, s, tag=""):
     """Structural postcondition of a constructed ConvexPolyhedron."""
     V = np.asarray(s.vertices, float)
-    h = geom.hull_facets(V)
+    h = _EXACT.get(V.tobytes()) or geom.hull_facets(V)
     L = float(np.linalg.norm(V, axis=1).max())
     d = gen.diameter(V)
     wit = lambda **kw: dict({"vertices": V}, **kw)  # noqa: E731
@@ -165,7 +168,14 @@ def run_case(i, rng, rec, tier, state):
     cs = state["cs"]
     mode = i % 3
     if mode == 0:
-        c = gen.convex_case(rng, tabulated_frac=0.15)
+        if (i // 3) % 8 == 3:
+            # exactly representable extreme solids: facets 1e-11..1e-4 rad from coplanar, needles and plates of aspect 2^10..2^20;
+            # the oracle's facets come from integer arithmetic (the float band cannot judge these)
+            c = gen.convex_exact_extreme(rng)
+            _EXACT.clear()
+            _EXACT[c["P"].tobytes()] = geom.hull_from_exact(c["P"], c["Pint"])
+        else:
+            c = gen.convex_case(rng, tabulated_frac=0.15)
         P = c["P"]
         try:
             s = cs.ConvexPolyhedron(P.copy())          # monitored: structural postcondition runs here
@@ -174,11 +184,13 @@ def run_case(i, rng, rec, tier, state):
             return
         rec.cls("convex:" + c["kind"].split("-")[0])
         perm = rng.permutation(len(P))
+        if "Pint" in c:
+            _EXACT[P[perm].tobytes()] = geom.hull_from_exact(P[perm], [c["Pint"][j] for j in perm])
         s2 = cs.ConvexPolyhedron(P[perm].copy())
         f1 = {frozenset(tuple(np.round(P[j], 12)) for j in f) for f in s.faces}
         f2 = {frozenset(tuple(np.round(P[perm][j], 12)) for j in f) for f in s2.faces}
         rec.check("order-independence", f1 == f2, "ConvexPolyhedron.faces/depend-on-vertex-order", {"vertices": P, "perm": perm})
-        h = geom.hull_facets(P)
+        h = _EXACT.get(P.tobytes()) or geom.hull_facets(P)
         if any(len(f) > 3 for f in h.facets) or len(h.facets) > 12:
             rec.nontriv(P[np.lexsort(P.T)])
         if i < 6:
